@@ -15,6 +15,59 @@ KIND_HELPERS = {
     'swap_l': [(0, 'this')],
 }
 
+def _tests_kind_of(fn, spec):
+    want = 'this' if spec == 'this' else ('v', fn['params'][spec]['id'], fn['params'][spec]['n'])
+    for y in A.walk_no_lambda(fn['body']):
+        if A.is_call(y) and A.callee_name(y) == 'storage_kind' and K.obj_key(y.get('obj')) == want: return True
+    return False
+
+_HELPER_MAPS = {}
+_FACTS = [None]
+def helper_map(fn, depth=0):
+    """Kind preconditions of a helper template, derived from the helper itself: [(template argument index, 'this' | parameter position)] for
+    every object on which the body calls cast<T>() with T one of the function's own template arguments (`swap_l_r<TypeL,TypeR>` reads
+    `cast<TypeL>()` of one object and `cast<TypeR>()` of the other, whether they are `*this` and a parameter or two parameters).  The
+    callers owe the helper that the object holds the kind of that storage type (checked at every call), the helper may assume it."""
+    key = (fn['_unit'], fn['id'])
+    if key in _HELPER_MAPS: return _HELPER_MAPS[key]
+    out = []
+    ta = fn.get('ta') or []
+    if ta and fn['n'] not in ('cast', 'construct') and fn.get('body') is not None:
+        stor = [A.strip_targs(t).rsplit('::', 1)[-1] for t in ta]
+        for c in A.walk_no_lambda(fn['body']):
+            if c.get('k') != 'CXXMemberCallExpr' or A.callee_name(c) != 'cast' or not c.get('ta'): continue
+            t = A.strip_targs(c['ta'][0]).rsplit('::', 1)[-1]
+            if t not in stor or not t.endswith('_storage'): continue
+            k = K.obj_key(c.get('obj'))
+            if k == 'this': spec = 'this'
+            elif isinstance(k, tuple) and any(p_['id'] == k[1] for p_ in fn['params']): spec = [i for i, p_ in enumerate(fn['params']) if p_['id'] == k[1]][0]
+            else: continue
+            if (stor.index(t), spec) not in out: out.append((stor.index(t), spec))
+        # preconditions of the helpers this one hands its own objects to (swap_l<TypeL> -> swap_l_r<TypeL,X>): inherited when the
+        # callee's storage type is one of this function's template arguments
+        if depth < 3 and _FACTS[0] is not None:
+            for c in A.walk_no_lambda(fn['body']):
+                if not A.is_call(c): continue
+                cal = _FACTS[0].callee(fn, c)
+                if cal is None or cal is fn or cal.get('dep') or not cal.get('ta') or cal.get('body') is None or cal['n'] in ('cast', 'construct'): continue
+                for cidx, cobj in helper_map(cal, depth + 1):
+                    t = A.strip_targs(cal['ta'][cidx]).rsplit('::', 1)[-1]
+                    if t not in stor: continue
+                    e = c.get('obj') if cobj == 'this' else ((c.get('args') or [])[cobj] if cobj < len(c.get('args') or []) else None)
+                    if cobj == 'this' and c.get('k') != 'CXXMemberCallExpr': continue
+                    k = K.obj_key(e) if e is not None else None
+                    if k == 'this': spec = 'this'
+                    elif isinstance(k, tuple) and any(p_['id'] == k[1] for p_ in fn['params']): spec = [i for i, p_ in enumerate(fn['params']) if p_['id'] == k[1]][0]
+                    else: continue
+                    if (stor.index(t), spec) not in out and spec not in [o for _, o in out]: out.append((stor.index(t), spec))
+        # one template argument per object: an object read under two different template arguments is not a precondition pattern
+        objs = [o for _, o in out]
+        if len(objs) != len(set(objs)): out = []
+        # the helper must not establish the kind itself (a function that tests storage_kind() is not a precondition helper)
+        if out and any(A.is_call(y) and A.callee_name(y) == 'storage_kind' for y in A.walk_no_lambda(fn['body'])): out = [(i, o) for i, o in out if o == 'this' and False] or [(i, o) for i, o in out if not _tests_kind_of(fn, o)]
+    _HELPER_MAPS[key] = out
+    return out
+
 def pun_exempt(model, fn, call, simple, actual_names, fn_body):
     """Layout-identical, behaviour-neutral reads (reason) or None.
     (1) a reference kind read through const_json_ref_storage: both reference storages hold one pointer and the const view
@@ -56,6 +109,7 @@ def r09_1_2(chk, facts, model):
     chk.require(len(fns) > 500, 'basic_json member functions not found (%d)' % len(fns))
     n_unreach = 0
     skipped = 0
+    _FACTS[0] = facts; _HELPER_MAPS.clear()
     for fn in fns:
         casts = [c for c in A.walk_no_lambda(fn['body']) if c.get('k') == 'CXXMemberCallExpr' and A.callee_name(c) == 'cast' and c.get('ta')]
         unre = [c for c in A.walk_no_lambda(fn['body']) if c.get('k') == 'CallExpr' and A.callee_name(c) == '__builtin_unreachable']
@@ -63,23 +117,26 @@ def r09_1_2(chk, facts, model):
         if fn['n'] in ('cast', 'construct'): continue
         chk.analysed(fn)
         entry = {}
-        if fn['n'] in KIND_HELPERS and fn.get('ta'):
-            for idx, obj in KIND_HELPERS[fn['n']]:
-                if idx < len(fn['ta']):
-                    ks = model.storage_kind_of.get(A.strip_targs(fn['ta'][idx]).rsplit('::', 1)[-1])
-                    if ks:
-                        key = 'this' if obj == 'this' else ('v', fn['params'][obj]['id'], fn['params'][obj]['n']) if fn['params'] else None
-                        if key: entry[key] = frozenset(ks)
+        for idx, obj in helper_map(fn):
+            ks = model.storage_kind_of.get(A.strip_targs(fn['ta'][idx]).rsplit('::', 1)[-1])
+            if ks:
+                key = 'this' if obj == 'this' else ('v', fn['params'][obj]['id'], fn['params'][obj]['n'])
+                entry[key] = frozenset(ks)
         flow = K.KindFlow(model, fn, entry)
         inst = fn['q']
         # call-site obligations of the kind-precondition helpers
-        for hc in [c for c in A.walk_no_lambda(fn['body']) if c.get('k') == 'CXXMemberCallExpr' and A.callee_name(c) in KIND_HELPERS and c.get('ta')]:
-            if K.obj_key(hc.get('obj')) != 'this': continue
-            for idx, obj in KIND_HELPERS[A.callee_name(hc)]:
-                if idx >= len(hc['ta']): continue
-                sname = A.strip_targs(hc['ta'][idx]).rsplit('::', 1)[-1]
+        for hc in [c for c in A.walk_no_lambda(fn['body']) if A.is_call(c)]:
+            callee = facts.callee(fn, hc)
+            if callee is None or callee.get('dep') or not callee.get('ta') or callee is fn: continue
+            for idx, obj in helper_map(callee):
+                if idx >= len(callee['ta']): continue
+                sname = A.strip_targs(callee['ta'][idx]).rsplit('::', 1)[-1]
                 want = model.storage_kind_of.get(sname)
-                key = 'this' if obj == 'this' else K.obj_key((hc.get('args') or [None])[obj])
+                if obj == 'this':
+                    if hc.get('k') != 'CXXMemberCallExpr': continue
+                    key = K.obj_key(hc.get('obj'))
+                else:
+                    key = K.obj_key((hc.get('args') or [])[obj]) if obj < len(hc.get('args') or []) else None
                 if not want or key is None: continue
                 kinds = flow.kinds_at(hc, key)
                 if kinds is None: continue
